@@ -26,6 +26,14 @@ structure Valid (I : IdIn) : Prop where
   disj : ∀ y ∈ I.Y, y ∉ I.X
   plain : EstPlain I.est
 
+/-- a valid query of the property: well-formed acyclic graph, `Y` non-empty inside the graph, `X ∩ Y = ∅` -/
+structure ValidQuery (G : MG Name) (X Y : List Name) : Prop where
+  wf : G.WF
+  ranked : G.Ranked
+  ysub : ∀ y ∈ Y, y ∈ G.nodes
+  yne : Y ≠ []
+  disj : ∀ y ∈ Y, y ∉ X
+
 /-- what the theorems assume about `graph.topological_sort()` (networkx): on a well-formed acyclic graph it
 returns a list of exactly the nodes -/
 structure TopoGood (topo : MG Name → Except Err (List Name)) : Prop where
